@@ -212,6 +212,18 @@ def gen_sq_case(rng, big=False, kind=None):
     return c
 
 
+def sibling_sq(rng, c):
+    """a second configuration that shares everything a cache could be keyed on — timestep label, particle number, box,
+    wave-vector table — with other positions and another condition of the same kind: evaluated right after `c`"""
+    d, N, L = c["d"], c["N"], c["box"]
+    s = dict(c)
+    s["pos"] = [[dec(rng, -1.5, float(L[j]) + 1.5, 3) for j in range(d)] for _ in range(N)]
+    s["cond"] = gen_condition(rng, d, N, c["cond"]["kind"], sq=True)
+    s["sibling"] = True
+    s["after"] = {k: v for k, v in c.items() if k not in ("after",)}       # the history travels with the case (replay, shrinking)
+    return s
+
+
 def vectors_of(c):
     if "vec" in c:
         return [list(v) for v in c["vec"]]
@@ -296,6 +308,10 @@ def real_sq(c, cond=None):
     """-> (per-vector frame columns, {col: values}, averaged {q: Sq} as list of pairs)"""
     from PyMatterSim.static.sq import conditional_sq
     cond = cond or c["cond"]
+    if c.get("after") is not None:
+        a = c["after"]
+        conditional_sq(snapshot_of(a), np.array(vectors_of(a), dtype=np.dtype(a.get("qdtype", "int32"))).reshape(-1, a["d"]),
+                       np_condition(a["cond"], a["d"]))                     # the earlier call of this history
     qv = np.array(vectors_of(c), dtype=np.dtype(c.get("qdtype", "int32"))).reshape(-1, c["d"])
     if c.get("reuse"):
         conditional_sq(snapshot_of(c), qv, np.ones(c["N"]))       # earlier call with the same table object
@@ -765,6 +781,7 @@ def run_cases(run, cases, record=True):
             else:
                 run.hist("vectors", "list" if "vec" in c else "default")
                 run.hist("qvector_table", c.get("qdtype", "int32") + (":reused" if c.get("reuse") else ":fresh"))
+                run.hist("sq_history", "sibling of the previous case" if c.get("sibling") else "independent")
         if c["op"] == "gr":
             parsed = parse_gr(o)
             if parsed["margin"] < MU:
@@ -824,7 +841,11 @@ def correspond(run):
     cases = common.load_corpus(PROP)
     kinds = ["bool", "real", "complex", "vector", "tensor"]
     cases += [gen_gr_case(run.rng, big=(i % 5 == 0), kind=(kinds[i % 5] if i < 25 else None)) for i in range(ngr)]
-    cases += [gen_sq_case(run.rng, big=(not quick and i % 4 == 0), kind=(kinds[i % 4] if i < 16 else None)) for i in range(nsq)]
+    for i in range(nsq):
+        c = gen_sq_case(run.rng, big=(not quick and i % 4 == 0), kind=(kinds[i % 4] if i < 16 else None))
+        cases.append(c)
+        if i % 3 == 0:
+            cases.append(sibling_sq(run.rng, c))      # call history: same timestep, N, box and table; other positions
     dis, fail = [], []
     for s in range(0, len(cases), 100):
         d1, f1 = run_cases(run, cases[s:s + 100])
@@ -989,7 +1010,10 @@ def search(run, broken):
     if any(b["kind"] != "oracle" for b in broken) or not pool:
         pool += directed_cases(run.rng)
         n = 120 if run.tier == "quick" else 900
-        pool += [gen_gr_case(run.rng) for _ in range(n)] + [gen_sq_case(run.rng) for _ in range(n // 2)]
+        pool += [gen_gr_case(run.rng) for _ in range(n)]
+        for _ in range(n // 2):
+            c0 = gen_sq_case(run.rng)
+            pool += [c0, sibling_sq(run.rng, c0)]
     for c in pool:
         tried += 1
         why = real_failure(c)
